@@ -279,3 +279,16 @@ Proof.
     split; [exact Hpos'|]. intros _. rewrite Hoa. unfold trade_fee. rewrite Hcomm. f_equal. f_equal.
     unfold pm. lra.
 Qed.
+
+(* C02: a trade at the current price changes cash + marked position value only by the explicit costs *)
+Theorem trade_conserves_value pnow comm q upd price (s s' : secR) oa (capital : R) :
+  sec_transact (N:=RNumI) pnow comm q upd false price s = Ok (s', oa) -> q <> 0 ->
+  exists p bop amt fee st,
+    s_price s = Some p /\ oa = Some (mkAdj (N:=RNumI) amt fee st) /\
+    trade_spread s q price p = Some bop /\ fee = trade_fee comm s q price p /\
+    (capital + amt) + s_pos s' * p * s_mult s = capital + s_pos s * p * s_mult s - (bop + fee).
+Proof.
+  intros H Hq. destruct (sec_transact_booking _ _ _ _ _ _ _ _ H Hq) as (p & bop & Hp & Hs & Hpos & _ & _ & _ & Hoa).
+  exists p, bop, (- (q * p * s_mult s + bop + trade_fee comm s q price p)), (trade_fee comm s q price p), upd.
+  repeat split; auto. rewrite Hpos. lra.
+Qed.
